@@ -740,6 +740,11 @@ def gen_dup_seeds(rng, ms, plural, full):
             sides = [orig_side, None if orig_side else other_lib] if full else [[orig_side, None if orig_side else other_lib][rng.randrange(2)]]
             for side in sides:
                 new_attrs = with_side(attrs, side)
+                if sec == "unitClasses" and [a[0] for a in new_attrs] == ["inLibrary"]:
+                    # a unit class that repeats an existing name and carries inLibrary as its ONLY attribute is the
+                    # loader's placeholder form for adding units to a partner class (_check_if_duplicate), not a
+                    # duplicate: nothing is to be reported, so it is not a seed of this fault kind
+                    continue
                 under = None
                 if sec == "units":
                     same = next(k for k, r in enumerate(ucs) if r[0] == owner)
